@@ -10,7 +10,7 @@ atexit.register(shutil.rmtree, OUTDIR, True)
 OUTPATHS = [os.path.join(OUTDIR, 'o.txt'), os.path.join(OUTDIR, 'o.txt'), os.path.join(OUTDIR, 'no', 'such', 'dir', 'o.txt'), OUTDIR]
 
 SPECIAL = ['0', '-1', '1e308', '1e-308', 'inf', '-inf', 'nan', '1e-30', '-0.0', '1e30', '0.5', '3']
-INTS = ['0', '-1', '1', '2', '-5', '7']
+INTS = ['0', '-1', '1', '2', '-5', '7', '9' * 400, '-' + '9' * 400]      # Python integers have no upper limit
 HUGEINT = '1000000'
 
 BASES = [
